@@ -3,9 +3,43 @@ K = 'github.com/ProjectSerenity/firefly/kernel'
 B = 'github.com/ProjectSerenity/firefly/kbuild'
 
 PROP = {'pkg': 'github.com/ProjectSerenity/firefly/kernel/device/acpi',
- 'tests': [{'name': 'TestVerifC14', 'checks_quick': 40000, 'checks_thorough': 1600000}],
- 'rule': 'placeholder',
- 'technique': 'placeholder',
- 'level_text': 'placeholder',
- 'level_note': 'placeholder',
- 'assumptions': []}
+ 'tests': [{'name': 'TestVerifC14', 'checks_quick': 100000, 'checks_thorough': 4000000}],
+ 'rule': 'rapid generates a firmware image model: search area of 64 bytes .. 64 KiB filled with pseudo-random bytes; '
+         'root-pointer structures at generated 16-byte slots (the real one at the first slot, at the last slot where '
+         'it still fits, or anywhere; revision 0 = 20 bytes, revisions 1/2/3/4/6/255 = 36 bytes followed by arbitrary '
+         'bytes), 0-3 decoys before it with the signature but every checksum broken (and an arbitrary Length field), '
+         'complete checksum-valid copies that do NOT sit on a 16-byte boundary, further valid structures and decoys '
+         'after it, or no valid structure at all; root table RSDT (4-byte entries, revision 0) or XSDT (8-byte '
+         'entries) with header revision 0-3 and 0-10 tables of distinct signatures in a generated order, bodies of '
+         '0 bytes .. 9 KB, about a quarter corrupted by changing one byte (checksum byte, first byte after the length, '
+         'last byte, anywhere), placed packed / 16-aligned / page-aligned / ending exactly at a page end / crossing '
+         'page boundaries; optional FADT (44 .. 400 bytes, typical sizes 116/244/276) with 32- and/or 64-bit DSDT '
+         'pointer and a DSDT that may itself be corrupted. The image is laid out in MAP_32BIT guarded memory whose '
+         'pages are inaccessible until the driver maps them through its mapFn/identityMapFn seams; the real probe '
+         'function and DriverInit run on it and are compared with the model: which structure wins, 32- vs 64-bit '
+         'root address, the exact {signature -> address} table map, one log report per corrupted table and none for '
+         'intact ones, no fault (= every byte was mapped before it was read). Non-trivial = >=3 listed tables of '
+         'which >=1 corrupted one is not the last entry, or >=1 decoy before the winning root pointer, or the root '
+         'pointer in the last slot where it fits; distinct = different hash of the JSON case.',
+ 'technique': 'rapid-generated firmware image models laid out in guarded, map-on-demand host memory; real probe + '
+              'DriverInit compared two-sidedly with a reference model of RSDP search and table enumeration',
+ 'level_text': 'Generated-input search: every generated firmware image is run through the real RSDP scan and table '
+               'enumeration and compared with a model written from the statement (nothing missing, nothing extra, '
+               'right addresses, corrupted tables reported and skipped). Exploration, not proof: image space is '
+               'infinite; the generator aims at slot positions, decoys, entry sizes, corruption positions and page '
+               'placement.',
+ 'level_note': 'Host memory stands in for physical memory: pages are PROT_NONE until the driver identity-maps them, so '
+               'reading an unmapped byte is observed as a fault (mprotect granularity = the 4 KiB page size of the '
+               'kernel). The shipped search area constants are checked to be 0xe0000-0xfffff and then redirected to '
+               'the image; the scan alignment is used as shipped.',
+ 'assumptions': ['the root pointer structure and every decoy lie wholly inside the search area (quantifier); a '
+                 'signature in a slot where the structure no longer fits is not generated',
+                 'revision != 0 root pointers are valid only with both checksums right and Length 36; decoys have '
+                 'both checksums broken ("one valid, one not" is unspecified)',
+                 'the root table itself always has a valid checksum and exactly as many entries as its length says',
+                 'a corrupted table differs from a valid one in one byte that is not part of its signature or length',
+                 'while F-C14b is open only FADTs whose DSDT pointer candidates (bytes 40, 140, 152) agree are '
+                 'generated; otherwise the ACPI rule decides (X_DSDT when present and non-zero, else DSDT)',
+                 'while F-C14c is open tables are placed so that their length alone tells how many pages they occupy',
+                 'the report of a corrupted table is any log line (io.Writer handed to DriverInit or the kfmt sink) '
+                 'that contains the word "checksum" and the table signature']}
